@@ -156,6 +156,18 @@ CHECKS = {
             'included); 2-D tail masses use adaptive quadrature at epsrel 1e-3 in the implementation and are compared at 2e-3; total weight ~ 1 '
             'asserted only on fine gamma grids.',
             'DESIGN.md §3 C17'),
+    'C18': ('model_checking',
+            'exhaustive enumeration of genotype partitions against brute-force enumeration of all genotype vectors and the exact (Fraction) sampling law; lattice enumeration of matrices and of the full correction on every unit model spectrum',
+            'For every sequenced size (2..12, thorough ..20), allele count and F of the lattice the partitions returned by the library are compared '
+            'with the set of ALL 3^(n/2) genotype vectors up to order (all and only, each once), and their probabilities with the exact multinomial '
+            '/ conditional beta-binomial law in rational arithmetic, also after polyploid use of the shared partition tables. Projection and '
+            'miscalling matrices are checked row-stochastic and non-negative for every (n, even n_sub, F, coverage distribution) with F->0 '
+            'continuity and contraction; no-call and enough-coverage probabilities lie in [0,1]. The complete wrapper is applied to every unit '
+            'model spectrum for 1-3 populations x coverage x F x sim_threshold: totals never exceed the model, entries are non-negative, and at '
+            'depth 80 the result equals the plain projection.',
+            'The Monte-Carlo branch is run with owned seeds and only draw-independent properties are asserted; coverage distributions with no '
+            'reads at all are excluded (nothing can be called).',
+            'DESIGN.md §3 C18'),
     'C19': ('model_checking',
             'exhaustive monomial basis x parameter-regime lattice x step sizes against exact derivatives; closed-form information matrices on an eps ladder; all bootstrap permutations; explicit-state enumeration of all call sequences over the shared cache up to a depth bound',
             'get_hess and get_grad (linear in the function) are applied to every monomial of degree <=2 in 1-5 variables at every point of the '
